@@ -66,7 +66,7 @@ def ast_rules(V, cfg):
                     "%s:%d: function declared [[gnu::const]]/[[gnu::pure]] takes a non-const reference/pointer or returns a reference: "
                     "an optimiser may delete or merge calls, the result depends on the optimisation level: %s" % (h[0], h[1], h[3]))
     # sanctioned calls
-    ok_calls = set((h[0], h[1], h[2]) for k in ("NCCALL_OK", "NCCALL_OK2", "NCCALL_OK3") for h in r.get(k, []))
+    ok_calls = set((h[0], h[1], h[2]) for k in ("NCCALL_OK", "NCCALL_OK2", "NCCALL_OK3", "NCCALL_OK4") for h in r.get(k, []))
     bad_calls = [h for h in lib_hits("NCCALL") if (h[0], h[1], h[2]) not in ok_calls]
     V.oblige(True, len(lib_hits("NCCALL")) - len(bad_calls))
     called_bad = set()
